@@ -20,9 +20,7 @@ func timeConst(ns *big.Int) *Term { return BV(timeW, ns) }
 func init() {
 	T := func(name string, f modelFn) { models["(time.Time)."+name] = f }
 	T("UnixNano", func(it *Interp, a []Val) Val { return Extract(63, 0, timeOf(it, a[0])) })
-	T("Unix", func(it *Interp, a []Val) Val {
-		return Extract(63, 0, BVBin("bvsdiv", timeOf(it, a[0]), BVi(timeW, 1000000000)))
-	})
+	T("Unix", func(it *Interp, a []Val) Val { return it.unixSeconds(timeOf(it, a[0])) })
 	T("Add", func(it *Interp, a []Val) Val {
 		return TimeV{BVBin("bvadd", timeOf(it, a[0]), SignExt(timeW, a[1].(*Term)))}
 	})
@@ -81,4 +79,40 @@ func init() {
 		}
 		return nil
 	}
+}
+
+
+// unixSeconds: ns / 10^9 is not bit-blasted (a 72-bit division by 10^9 stalls every solver here). The seconds of an
+// instant are an uninterpreted function of its nanoseconds with the facts the targets rely on: it is monotone, it
+// commutes with adding a whole number of seconds, and it is non-negative for the plausible range.
+func (it *Interp) unixSeconds(ns *Term) *Term {
+	if ns.IsConst() {
+		q := new(big.Int).Div(signed(timeW, ns.val), big.NewInt(1000000000))
+		return BV(64, q)
+	}
+	// t + k seconds
+	if ns.op == "bvadd" && len(ns.args) == 2 {
+		for i := 0; i < 2; i++ {
+			c, o := ns.args[i], ns.args[1-i]
+			if c.IsConst() {
+				d := signed(timeW, c.val)
+				if new(big.Int).Mod(d, big.NewInt(1000000000)).Sign() == 0 {
+					k := new(big.Int).Div(d, big.NewInt(1000000000))
+					return BVBin("bvadd", it.unixSeconds(o), BV(64, k))
+				}
+			}
+		}
+	}
+	r := App("unixsec", bvSort(64), ns)
+	if it.p.lenAx[-r.id] {
+		return r
+	}
+	it.p.lenAx[-r.id] = true
+	it.p.assertAxiom(Implies(BVCmp("bvsge", ns, BVu(timeW, 0)), And(BVCmp("bvsge", r, BVu(64, 0)), BVCmp("bvsle", SignExt(timeW, r), ns))))
+	for _, o := range it.p.inj["unixsec"] {
+		it.p.assertAxiom(Implies(BVCmp("bvsle", o.args[0], ns), BVCmp("bvsle", o, r)))
+		it.p.assertAxiom(Implies(BVCmp("bvsle", ns, o.args[0]), BVCmp("bvsle", r, o)))
+	}
+	it.p.inj["unixsec"] = append(it.p.inj["unixsec"], r)
+	return r
 }
